@@ -2,7 +2,8 @@
 From Coq Require Import List Arith Bool.
 From AV Require Import Base.Util Spec.Lang Spec.FA Spec.Regex Model.Decide
                        Model.RegexLex Model.RegexParse Model.RegexBuild Model.RegexCmp
-                       Proofs.RegexFrag Proofs.RegexBuild Proofs.RegexParse Proofs.RegexCompile Proofs.RegexTotal.
+                       Proofs.RegexFrag Proofs.RegexBuild Proofs.RegexParse Proofs.RegexGrammar Proofs.RegexCompile
+                       Proofs.RegexTotal.
 Import ListNotations.
 
 (* what passes regex.validate goes through the whole front end of NFA.from_regex (lexer,
@@ -56,15 +57,38 @@ Proof.
 Qed.
 Print Assumptions C11_compiles_validates.
 
-(* every expression of the grammar (printed with minimal parentheses, or wrapped in a
-   redundant pair) passes validation. The converse - every validated token list is a
-   printing of some AST up to redundant parentheses - is not proved: *)
-Definition C11_validate_iff_grammar_statement : Prop :=
-  forall ts, ts <> [] ->
-    (validate_tokens ts = Ok tt <-> exists r, parse_tokens ts = Ok r /\ parse_tokens (toks r 1) = Ok r).
-Theorem C11_grammar_validates_partial : forall r, validate_tokens (toks r 1) = Ok tt.
-Proof. exact print_validates. Qed.
-Print Assumptions C11_grammar_validates_partial.
+(* validation accepts exactly the regex grammar.  [gram l ts r] (Proofs/RegexGrammar.v) is the
+   inductive grammar of token lists: ts derives the AST r in a position that requires
+   precedence >= l, where
+     literal t                                   any level   (TSym a, ".", and the inserted TEmpty)
+     "(" ")"                                     any level   (the empty string)
+     a o b    a at level prec o, b at prec o + 1 level prec o   (| & ^ : 1, left associative; explicit TConcat : 2)
+     a b      a at level 2, b at level 3         level 2     (juxtaposition)
+     a p      a at level 3                       level 3     (p one of * + ? {lo,hi})
+     "(" a ")"   a at level 1                    any level   (any number of redundant pairs)
+     level l derivations are level l' derivations for l' <= l.
+   [regex_wf ts] := exists r, gram 1 ts r.  The empty token list (validate passes, parse_regex
+   gives the empty-string literal) is outside the grammar, hence the side condition. *)
+Theorem C11_validate_iff_grammar : forall ts, ts <> [] ->
+  (validate_tokens ts = Ok tt <-> regex_wf ts).
+Proof. exact validate_iff_grammar. Qed.
+Print Assumptions C11_validate_iff_grammar.
+
+(* the same at character level: regex.validate accepts a string iff the lexer succeeds and the
+   token list is empty (blanks only) or in the grammar *)
+Theorem C11_validate_chars_iff_grammar : forall cs,
+  validate cs = Ok tt <-> exists ts, lex cs = Ok ts /\ (ts = [] \/ regex_wf ts).
+Proof. exact validate_chars_iff_grammar. Qed.
+Print Assumptions C11_validate_chars_iff_grammar.
+
+(* the grammar is the parser's: a derivation of r is parsed to r (so the AST of a token list
+   is unique), and the minimal-parenthesis printing of every AST is derivable *)
+Theorem C11_grammar_is_the_parsers :
+  (forall ts r, gram 1 ts r -> parse_tokens ts = Ok r) /\
+  (forall ts r r', gram 1 ts r -> gram 1 ts r' -> r = r') /\
+  (forall r l, gram l (toks r l) r).
+Proof. split; [exact gram_parse|]. split; [exact gram_functional|exact gram_toks]. Qed.
+Print Assumptions C11_grammar_is_the_parsers.
 
 (* the comparison helpers over a common alphabet: when they answer, the answer is language
    equality / inclusion of the denotations of the two parsed expressions *)
@@ -109,3 +133,23 @@ Example C11_example_validate :
   validate [26; 3] = Err (Invalid 10) /\ parse [26; 3] = Err (Invalid 10) /\
   validate [4; 26] = Err (Invalid 10) /\ validate [26; 14] = Err (Invalid 11).
 Proof. vm_compute. repeat split. Qed.
+
+(* the grammar at work: "a(b|())*c" is derivable with its AST; ")a(" and "a|" are not well formed *)
+Example C11_example_grammar :
+  gram 1 [TSym 26; TLParen; TSym 27; TUnion; TLParen; TRParen; TRParen; TStar; TSym 28]
+         (RCat (RCat (RSym 26) (RStar (RUnion (RSym 27) REps))) (RSym 28)) /\
+  ~ regex_wf [TRParen; TSym 26; TLParen] /\ ~ regex_wf [TSym 26; TUnion].
+Proof.
+  split; [|split].
+  - apply (g_mono 2); [repeat constructor|].
+    apply (g_cat [TSym 26; TLParen; TSym 27; TUnion; TLParen; TRParen; TRParen; TStar] [TSym 28]).
+    + apply (g_cat [TSym 26] [TLParen; TSym 27; TUnion; TLParen; TRParen; TRParen; TStar]).
+      * apply (g_lit 2 (TSym 26)). reflexivity.
+      * apply (g_postfix TStar [TLParen; TSym 27; TUnion; TLParen; TRParen; TRParen]); [reflexivity|].
+        apply (g_paren 3 [TSym 27; TUnion; TLParen; TRParen]).
+        apply (g_infix TUnion [TSym 27] [TLParen; TRParen]); [reflexivity| |apply g_eps].
+        apply (g_lit 1 (TSym 27)). reflexivity.
+    + apply (g_lit 3 (TSym 28)). reflexivity.
+  - intro H. apply C11_validate_iff_grammar in H; [|discriminate]. vm_compute in H. discriminate.
+  - intro H. apply C11_validate_iff_grammar in H; [|discriminate]. vm_compute in H. discriminate.
+Qed.
